@@ -54,6 +54,7 @@ NextDoc(ev) ==
       [] ev.op = "set_part" -> Put(doc, ev.part, ev.new)
       [] ev.op = "del_part" -> Del(doc, ev.part)
       [] ev.op = "add_file" -> Put(doc, ev.part, ev.new)
+      [] ev.op = "merge_pic" -> Put(doc, ev.part, ev.new)     \* a picture part copied by merge_styles_from
       [] ev.op = "reopen"   -> disk[ev.target].parts
       [] OTHER -> doc
 NextMf(ev) ==
@@ -61,6 +62,7 @@ NextMf(ev) ==
       [] ev.op = "open"     -> ev.mf
       [] ev.op = "del_part" -> SeqWithout(mf, ev.part)
       [] ev.op = "add_file" -> AddOnce(AddOnce(mf, "Pictures/"), ev.part)
+      [] ev.op = "merge_pic" -> AddOnce(mf, ev.part)
       [] ev.op = "reopen"   -> disk[ev.target].mf
       [] OTHER -> mf
 
